@@ -25,6 +25,10 @@ HERE = pathlib.Path(__file__).resolve()
 # =====================================================================================================================
 # worker side (runs in its own interpreter; imports nothing from /verif)
 # =====================================================================================================================
+import time as _time_mod
+_REAL_TIME = _time_mod.time       # kept before the fake clock replaces time.time
+
+
 def _install_fake_clock(base: float, step: float):
     """Replace datetime.datetime (utcnow/now/today) and time.time/time_ns by a deterministic clock."""
     import datetime as _dt
@@ -72,6 +76,18 @@ def _one_run(run: dict) -> dict:
     import nunavut.cli.runners as runners
 
     os.chdir(run["cwd"])
+    for path, text in run.get("edits") or []:
+        # an edit of the inputs between two runs of a history (None = delete)
+        fp = pathlib.Path(path)
+        if text is None:
+            if fp.exists():
+                fp.unlink()
+        else:
+            fp.parent.mkdir(parents=True, exist_ok=True)
+            fp.write_text(text, encoding="utf-8")
+            import time as _t
+            future = _REAL_TIME() + 5.0     # make sure the edited definition is newer than anything generated so far
+            os.utime(fp, (future, future))
     argv = list(run["argv"])
     args = nunavut.cli._make_parser().parse_args(argv)
     real_reader = runners.read_dsdl_namespace
@@ -94,13 +110,27 @@ def _one_run(run: dict) -> dict:
     try:
         extra = list(args.lookup_dir) if args.lookup_dir is not None else []
         runner = runners.ArgparseRunner(args.root_namespace, args, extra)
-        runner.run()
+        if run.get("gen_calls"):
+            # several generate_all calls on the SAME generator objects (library use), into the same output directory
+            for call in run["gen_calls"]:
+                kw = dict(is_dryrun=False, allow_overwrite=True, omit_serialization_support=bool(call.get("omit")),
+                          embed_auditing_info=bool(call.get("audit")))
+                if runner._should_generate_support():
+                    runner._support_generator.generate_all(**kw)
+                if args.generate_support != "only":
+                    seen["generated"] = [str(x) for x in runner._generator.generate_all(**kw)]
+        else:
+            runner.run()
         err = None
     except BaseException as e:  # noqa  (SystemExit from argparse included)
         err = f"{type(e).__name__}: {e}"
     finally:
         runners.read_dsdl_namespace = real_reader
-    return {"files": _sha_tree(pathlib.Path(run["out"])), "error": err, "types": seen.get("used")}
+    gen = None
+    if seen.get("generated") is not None:
+        outp = pathlib.Path(run["out"]).resolve()
+        gen = sorted(pathlib.Path(x).resolve().relative_to(outp).as_posix() for x in seen["generated"] if pathlib.Path(x).exists())
+    return {"files": _sha_tree(pathlib.Path(run["out"])), "error": err, "types": seen.get("used"), "generated": gen}
 
 
 def _worker(jobfile: str) -> int:
@@ -130,8 +160,99 @@ def _worker(jobfile: str) -> int:
 # =====================================================================================================================
 # harness side
 # =====================================================================================================================
-def make_run(argv, out, cwd, transform=None):
-    return {"argv": [str(a) for a in argv], "out": str(out), "cwd": str(cwd), "transform": transform}
+def make_run(argv, out, cwd, transform=None, edits=None, gen_calls=None):
+    return {"argv": [str(a) for a in argv], "out": str(out), "cwd": str(cwd), "transform": transform,
+            "edits": [[str(p), t] for p, t in (edits or [])], "gen_calls": gen_calls}
+
+
+# =====================================================================================================================
+# histories: several runs with edits / option changes in between, in ONE interpreter and (mostly) ONE output directory,
+# always compared with the same FINAL run in a fresh interpreter into a fresh directory
+# =====================================================================================================================
+def history_stream(ctx, repo_src, root, lookups, langs, edits_spec, quick=True, tag="h"):
+    """
+    root/lookups: a small corpus input (copied privately per job).  edits_spec: {name: [(relative path below the copy, new text)]}.
+    Returns a list of findings: dict(scenario, lang, file, where-paths, errors ...).  Every scenario's last run is compared with a
+    fresh-process, fresh-directory run on the same final inputs with the same final arguments / flags.
+    """
+    scratch = ctx.scratch / f"hist_{tag}"
+    scratch.mkdir(parents=True, exist_ok=True)
+    (scratch / "cwd").mkdir(exist_ok=True)
+    jobs, plan = [], []
+    root, lookups = pathlib.Path(root), [pathlib.Path(l) for l in lookups]
+
+    def private_copy(name):
+        base = scratch / name / "in"
+        copy_tree(root, base / root.name)
+        for lk in lookups:
+            copy_tree(lk, base / lk.name)
+        return base
+
+    def argv(lang, base, out, extra=()):
+        return ["--experimental-languages", "-l", lang, "-O", out, base / root.name] + [x for lk in lookups for x in ("-I", base / lk.name)] + list(extra)
+
+    def abs_edits(base, name):
+        return [(base / rel, text) for rel, text in edits_spec[name]]
+
+    for lang in langs:
+        scen = []   # (scenario name, [run specs builder(base, outs)], final extra, final edits name, final gen_call)
+        # S1 edit a nested type, rerun into the SAME output directory
+        scen.append(("edit-nested-type-same-outdir", lambda b, o: [make_run(argv(lang, b, o[0]), o[0], scratch / "cwd"),
+                                                                  make_run(argv(lang, b, o[0]), o[0], scratch / "cwd", edits=abs_edits(b, "nested"))], (), "nested", None))
+        # S2 change an option, rerun into the SAME output directory
+        opt = {"c": ["--enable-serialization-asserts"], "cpp": ["--enable-serialization-asserts"], "py": ["--pp-max-emptylines", "3"],
+               "html": ["--pp-max-emptylines", "3"]}[lang]
+        scen.append(("change-option-same-outdir", lambda b, o, opt=opt: [make_run(argv(lang, b, o[0]), o[0], scratch / "cwd"),
+                                                                         make_run(argv(lang, b, o[0], opt), o[0], scratch / "cwd")], tuple(opt), None, None))
+        # S3 a dependency is swapped for another type with the same bit length set; second generation in the process, fresh outdir
+        scen.append(("swap-dependency-same-size-second-generation", lambda b, o: [make_run(argv(lang, b, o[0]), o[0], scratch / "cwd"),
+                                                                                make_run(argv(lang, b, o[1]), o[1], scratch / "cwd", edits=abs_edits(b, "swap"))], (), "swap", None))
+        # S4 a run with auditing info, then the plain run (other outdir)
+        scen.append(("auditing-run-then-plain-run", lambda b, o: [make_run(argv(lang, b, o[0], ["--embed-auditing-info"]), o[0], scratch / "cwd"),
+                                                                make_run(argv(lang, b, o[1]), o[1], scratch / "cwd")], (), None, None))
+        # S5 the same generator objects: omit serialization support off then on / on then off; auditing on then off
+        scen.append(("same-generator-omit-off-then-on", lambda b, o: [make_run(argv(lang, b, o[0]), o[0], scratch / "cwd", gen_calls=[{"omit": False}, {"omit": True}])], (), None, {"omit": True}))
+        scen.append(("same-generator-omit-on-then-off", lambda b, o: [make_run(argv(lang, b, o[0]), o[0], scratch / "cwd", gen_calls=[{"omit": True}, {"omit": False}])], (), None, {"omit": False}))
+        scen.append(("same-generator-auditing-on-then-off", lambda b, o: [make_run(argv(lang, b, o[0]), o[0], scratch / "cwd", gen_calls=[{"audit": True}, {"audit": False}])], (), None, {}))
+        if not quick:
+            scen.append(("edit-nested-type-second-generation", lambda b, o: [make_run(argv(lang, b, o[0]), o[0], scratch / "cwd"),
+                                                                             make_run(argv(lang, b, o[1]), o[1], scratch / "cwd", edits=abs_edits(b, "nested"))], (), "nested", None))
+            scen.append(("omit-run-then-plain-run-same-outdir", lambda b, o: [make_run(argv(lang, b, o[0], ["--omit-serialization-support"]), o[0], scratch / "cwd"),
+                                                                              make_run(argv(lang, b, o[0]), o[0], scratch / "cwd")], (), None, None))
+        for si, (name, build, fextra, fedit, fcall) in enumerate(scen):
+            jn = f"{tag}{len(jobs)}"
+            base = private_copy(jn)
+            outs = [scratch / jn / "out0", scratch / jn / "out1"]
+            runs = build(base, outs)
+            jobs.append({"name": jn, "runs": runs, "hashseed": "0", "fake_time": 1.0e9, "fake_step": 0.0})
+            fn = f"{tag}{len(jobs)}"
+            fbase = private_copy(fn)
+            fout = scratch / fn / "fresh"
+            frun = make_run(argv(lang, fbase, fout, fextra), fout, scratch / "cwd", edits=(abs_edits(fbase, fedit) if fedit else None),
+                            gen_calls=([fcall] if fcall is not None else None))
+            jobs.append({"name": fn, "runs": [frun], "hashseed": "0", "fake_time": 1.0e9, "fake_step": 0.0})
+            plan.append({"scenario": name, "lang": lang, "job": jn, "fresh": fn, "final_out": runs[-1]["out"], "fresh_out": str(fout),
+                         "runs": [{"argv": [a.replace(str(scratch), "<scratch>") for a in r["argv"]], "gen_calls": r["gen_calls"],
+                                   "edits": [e[0].replace(str(scratch), "<scratch>") for e in r["edits"]]} for r in runs]})
+    results = exec_jobs(repo_src, ctx.scratch, jobs, max_workers=14)
+    findings = []
+    for pl in plan:
+        h, f = results[pl["job"]], results[pl["fresh"]]
+        if isinstance(h, Exception) or isinstance(f, Exception):
+            findings.append({**pl, "kind": "worker-error", "error": str(h if isinstance(h, Exception) else f)[:500]})
+            continue
+        hl, fr = h[-1], f[0]
+        if any(r["error"] for r in h[:-1]) or bool(hl["error"]) or bool(fr["error"]):
+            if bool(hl["error"]) != bool(fr["error"]) and not any(r["error"] for r in h[:-1]):
+                findings.append({**pl, "kind": "outcome", "errors": [str(hl["error"])[:300], str(fr["error"])[:300]]})
+            else:
+                findings.append({**pl, "kind": "skipped-error", "errors": [str(r["error"])[:200] for r in h] + [str(fr["error"])[:200]]})
+            continue
+        # what the fresh run produced must be there with the same bytes (left-overs of earlier runs are another property's subject)
+        bad = sorted(k for k, v in fr["files"].items() if hl["files"].get(k) != v)
+        findings.append({**pl, "kind": "differs" if bad else "equal", "files": bad[:8], "n": len(bad), "n_files": len(fr["files"]),
+                         "sha256": [hl["files"].get(bad[0]), fr["files"].get(bad[0])] if bad else None})
+    return findings
 
 
 def exec_job(repo_src, scratch: pathlib.Path, name: str, runs, hashseed="0", fake_time=None, fake_step=1.0, timeout=600,
